@@ -280,6 +280,30 @@ def building_a_composite_leaves_the_free_variables_of_its_operands_unchanged(S):
     S.ensure("operand-a-still-constant-after-the-evaluation", set(S.getattr(A.obj, "necessary_variables")) == before_a and set(S.getattr(dom, "necessary_variables")) == want)
 
 
+@scenario("C17", [ops.PROD + ".__call__", "torchphysics.problem.domains.domain.Domain.set_volume", "torchphysics.problem.domains.domain.Domain.volume"], configs=["user-volume-then-slice"], bounded=BOUND)
+def slicing_a_product_at_its_own_variable_does_not_inherit_the_volume_of_the_whole(S):
+    """history: a volume was set (or cached) on the product A(t) x B(t); evaluating the product at a value of its OWN
+    variable y gives the slice A x {y0}, whose volume is that of the evaluated factors (vol_A(t) * 1), not the volume
+    stored on the whole product; the original keeps its stored volume"""
+    A = abstract_domain(S, "A", S.new(R2, "x"), {"t": 1})
+    B = abstract_domain(S, "B", S.new(R1, "y"), {"t": 1})
+    dom = S.new(ops.PROD, A.obj, B.obj)
+    uv = RowFn("uservol", ["t"], 1, {"t": 1})
+    S.method(dom, "set_volume", uv)
+    K = S.int("K", 1)
+    Tt = S.tensor("tt", [K, 1])
+    params = S.new(POINTS, Tt, S.new(R1, "t"))
+    v0 = S.method(dom, "volume", params).val
+    S.forall("the-whole-product-reports-the-user-volume", v0, lambda q: v0.at(q) == uv.value_terms([zreal(Tt.val.at([q[0], ()]))])[0])
+    d2 = S.call(dom, y=S.tensor("Y0", [1, 1]))
+    v2 = S.method(d2, "volume", params).val
+    ok = v2.rank >= 1 and v2.shape[0].size_term() is not None
+    S.ensure("slice-volume-has-one-value-per-parameter-row", ok)
+    S.forall("slice-volume-is-the-volume-of-the-evaluated-factors", v2, lambda q: v2.at(q) == A.Vol(zreal(Tt.val.at([q[0], ()]))))
+    v1 = S.method(dom, "volume", params).val
+    S.forall("the-original-still-reports-the-user-volume", v1, lambda q: v1.at(q) == uv.value_terms([zreal(Tt.val.at([q[0], ()]))])[0])
+
+
 @scenario("C17", [ops.PROD + ".__call__", ops.PROD + "._create_point_data"], configs=["keywords-in-reverse-space-order"], bounded=BOUND)
 def product_fixing_a_factor_with_two_variables_binds_the_values_by_name(S):
     """(A over p, q) x (B over y), evaluated at q = Q0, p = P0 with the keywords NOT in the order of the factor's space
